@@ -88,7 +88,10 @@ class Naming:
     scheme: int = 0
 
     def node(self, n: int) -> str:
-        return NODE_NAMES[self.scheme % len(NODE_NAMES)][int(n)]
+        # a FRESH string object on every call (equal, not identical): what a description parsed from text or built with f-strings gives;
+        # code that compares identifiers with 'is' must not get away with it
+        s = NODE_NAMES[self.scheme % len(NODE_NAMES)][int(n)]
+        return (s + '\0')[:-1]
 
     def eid(self, i: int, role: str = 'P') -> str:
         # ids within one scheme sort by (prefix, index) in an order unrelated to listing order
